@@ -15,5 +15,5 @@ CONSTANTS
   DevGCDropsEdge = FALSE
   DevNoReloadOpenBatch = FALSE
   DevKeyByBlockTs = TRUE
-INVARIANTS AbsIter AbsLastUpdated AbsAgree
+INVARIANTS AbsAll
 CHECK_DEADLOCK FALSE
